@@ -101,7 +101,11 @@ def apply_set(ctx, k):
     return ctx
 
 
-def reference(kinds, shape, cut):
+def _same(v):
+    return v
+
+
+def reference(kinds, shape, cut, lead=False):
     """Expected observation of every observer item (by position) and the
     final context of the whole sequence, by folding the SetContext elements
     in document order.  Returns (obs: dict position -> context or None if
@@ -135,10 +139,13 @@ def reference(kinds, shape, cut):
     other = copy.deepcopy(ctx)
     other["e"] = "E"
     final = lena.context.intersection(bctx, other)
+    if lead:
+        # a leading branch without any SetContext exports what it received
+        final = lena.context.intersection(final, ctx)
     return obs, final
 
 
-def build(kinds, shape, cut, suffix, sibling):
+def build(kinds, shape, cut, suffix, sibling, lead=False):
     els = [make_item(k) for k in kinds]
     for c in els:
         if isinstance(c, Cache):
@@ -152,6 +159,9 @@ def build(kinds, shape, cut, suffix, sibling):
         seq = Sequence(*(els[:cut] + [Sequence(*els[cut:])] + suf))
     elif shape == 2:
         branches = [tuple(els[cut:]), (SetContext("e", "E"),)]
+        if lead:
+            # a data-only branch (its static context is what the Split received) first
+            branches.insert(0, (_same,))
         if sibling:
             branches.append((SetContext("a", "Y"), SetContext("s", "S")))
         seq = Sequence(*(els[:cut] + [Split(branches)] + suf))
@@ -192,14 +202,15 @@ def expected_obs(k, ctx):
 
 
 def check_program(n: int, k0: int, k1: int, k2: int, k3: int, shape: int, cut: int,
-                  suffix: int, sibling: bool) -> bool:
+                  suffix: int, sibling: bool, lead: bool = False) -> bool:
     """
     pre: 1 <= n <= B.LEN
     pre: 0 <= k0 <= 10 and 0 <= k1 <= 10 and 0 <= k2 <= 10 and 0 <= k3 <= 10
     pre: 0 <= shape < B.SHAPES
     pre: 0 <= cut <= n
     pre: 0 <= suffix <= B.SUF
-    pre: h.in_shard(k0 + 11 * (shape % 2))
+    pre: (not lead) or shape == 2
+    pre: h.in_shard(k0 + 11 * (2 if lead else shape % 2))
     post: _
     """
     n = h.concrete(n, 1, B.LEN)
@@ -212,9 +223,10 @@ def check_program(n: int, k0: int, k1: int, k2: int, k3: int, shape: int, cut: i
         cut = n - 1          # a Split branch needs at least one element
     if shape in (4, 5) and cut == 0:
         cut = 1
-    obs, final = reference(kinds, shape, cut)
+    ld = (True if lead else False) and shape == 2
+    obs, final = reference(kinds, shape, cut, ld)
     with world([cache_mod, write_mod]):
-        seq, els = build(kinds, shape, cut, 0, False)
+        seq, els = build(kinds, shape, cut, 0, False, ld)
         # what each observer saw == the fold of what precedes it
         for p, want in obs.items():
             if want is None:
@@ -249,7 +261,7 @@ def check_program(n: int, k0: int, k1: int, k2: int, k3: int, shape: int, cut: i
                     return h.ok(False)
         # a later element / sibling branch changes no earlier observation
         if suffix or (sib and shape == 2):
-            seq2, els2 = build(kinds, shape, cut, suffix, sib)
+            seq2, els2 = build(kinds, shape, cut, suffix, sib, ld)
             for p, want in obs.items():
                 if want is None:
                     continue
@@ -327,7 +339,7 @@ def check_no_leak(n: int, k0: int, k1: int, k2: int, nested: bool) -> bool:
 
 
 CONDITIONS = [
-    dict(fn="check_program", shards=(22, 22), budget=(90, 1500),
+    dict(fn="check_program", shards=(33, 33), budget=(120, 1500),
          smoke=["check_program(2, 1, 4, 2, 0, 0, 0, 1, False)", "check_program(2, 1, 3, 5, 0, 1, 1, 1, False)",
                 "check_program(2, 1, 6, 7, 0, 2, 1, 0, True)", "check_program(2, 3, 4, 8, 0, 3, 0, 0, False)",
                 "check_program(2, 9, 4, 0, 0, 2, 1, 0, False)", "check_program(2, 1, 6, 0, 0, 4, 1, 1, False)", "check_program(2, 1, 5, 0, 0, 5, 1, 1, False)", "check_program(2, 2, 10, 0, 0, 0, 0, 1, False)"]),
